@@ -31,8 +31,8 @@ META = {
                   "installed. Container family is compared as numpy-like / jax / torch only.",
     "shards": {"quick": 3, "thorough": 16},
     "budget_s": {"quick": 110, "thorough": 300},
-    "min_evals": {"quick": 150, "thorough": 2500},
-    "min_nontrivial": {"quick": 40, "thorough": 600},
+    "min_evals": {"quick": 150, "thorough": 1000},
+    "min_nontrivial": {"quick": 40, "thorough": 200},
     "allow_rejections": True,
     "deciding": ["shape.spec", "shape.cross", "jac.spec"],
     "rule": "case = request (measurement list, shots, broadcast size, parameter shapes) evaluated under several configurations; distinct = distinct request; "
